@@ -48,7 +48,11 @@ CLASSES = (
     "`time` argument of recovery_factor, a supplied tau outside the configured tau limits, labelled pandas rows in another "
     "field order, an index named like a column, sub-sampled time grids, unsigned integer dtypes, integer-typed fluid "
     "parameters with depletion-ordered arrays, batches whose errors cancel, table rows a quarter of a psi apart, every option "
-    "passed positionally, public methods found by introspection, a foreign matplotlib scale registered first"
+    "passed positionally, public methods found by introspection, a foreign matplotlib scale registered first, histories of "
+    "3x10^7 stored values, plots of 650 000 stamps, an identically zero production record, pseudocritical temperature exactly "
+    "0 F, p_frac exactly equal to p_initial, fluid parameters passed as 0-d arrays, pandas Series with permuted labels, "
+    "batches sorted by each phase's own saturation, rel-perm tables made for another connate water saturation, constant "
+    "schedules above the initial pressure, PVT tables with a user `alpha` column, the fluid's table edited between calls"
 )
 
 os.makedirs(OUT, exist_ok=True)
